@@ -39,6 +39,8 @@ def all_paths_pass(cfg, start, through, also_ok=()):
 
 
 def run(ck, facts, tier):
+    from shared import zippers
+    zippers.answer_subst(ck, facts, "C01.ANSWER-SUBST")
     # ------------------------------------------------------------------ UNIQUE-GUARD
     R = "C01.UNIQUE-GUARD"
     ck.rule(R, "K3: in make_solution every `Solution::Unique` is reachable only through the true edge of next_answer.is_no_more_solutions() "
